@@ -343,7 +343,7 @@ def rule_ctor(prog, rep):
                          "merge_cond_shapes on all children; the validators and __check_init__ methods raise on the "
                          "documented predicate with exact tuple comparisons (no broadcasting array comparison); "
                          "Coupling / MaskedAutoregressive / BlockAutoregressiveNetwork reject non-scalar or "
-                         "conditional transformers", minimum=22)
+                         "conditional transformers", minimum=28)
     for q, (argn, src) in FUNC_REFS.items():
         m, fn = prog.func(q)
         args = [("sym", a) for a in argn]
@@ -380,6 +380,27 @@ def rule_ctor(prog, rep):
             ok = bool(calls) and any(any(z == args[0] for z in walk(s)) for s in calls)
             rep.check(ok, "C13.ctor", site, f"{c.name}.__init__ calls {short}",
                       f"{short}(...) on the children", f"{c.name}.__init__ does not call {short} on its children")
+            # ... and on the right attribute of every child: the shapes for the shape validators, the condition
+            # shapes for merge_cond_shapes
+            if calls:
+                B0 = args[0]
+                want_attr = "cond_shape" if short == "merge_cond_shapes" else "shape"
+                src_ref = ("def f(bijections):\n"
+                           f"    return [b.{want_attr} for b in bijections]\n")
+                src_ref_u = ("def f(bijections):\n"
+                             f"    return [unwrap(b).{want_attr} for b in unwrap(bijections)]\n")
+                src_ref_u2 = ("def f(bijections):\n"
+                              f"    return [b.{want_attr} for b in unwrap(bijections)]\n")
+                wants = [eval_ref_function(prog, c.module, sr, [B0]) for sr in (src_ref, src_ref_u, src_ref_u2)]
+                okarg = False
+                for call in calls:
+                    a = (list(call[2]) + [v2 for _, v2 in call[3]])
+                    if a and any(equal(a[0], w) for w in wants):
+                        okarg = True
+                rep.check(okarg, "C13.ctor", site, f"{c.name}.__init__:{short}(children.{want_attr})",
+                          f"{short}([b.{want_attr} for b in children])",
+                          f"{c.name}.__init__ calls {short} on {show((list(calls[0][2]) + [v2 for _, v2 in calls[0][3]] or [None])[0], 160)}, "
+                          f"not on the children's {want_attr}: mismatched {want_attr}s are not rejected")
     # Vmap constructor: exactly one of in_axes / axis_size, wrappers in in_axes rejected
     c = prog.cls("flowjax.bijections.jax_transforms.Vmap")
     it = Interp(prog, no_inline={"flowjax.bijections.jax_transforms._infer_axis_size_from_params"})
